@@ -919,6 +919,30 @@ func rulesC12(p *Prog, r *Report) {
 	r.Extra["disagreements_checked"] = bytesCompared
 	r.Extra["templates"] = tmplDescr
 
+	// L7: the tables the library validates against cannot be changed from outside: every getter hands out
+	// a fresh literal on every call
+	r.Rule("L7", "necessary", 3, "each table getter returns a freshly built literal on every call (a shared backing array could be rewritten by any caller, after which the library no longer validates against the SPDX data)")
+	for _, name := range []string{"GetLicenses", "GetDeprecated", "GetExceptions"} {
+		g := p.Func(p.LicPkg, name)
+		if g == nil {
+			r.Unknown("L7", name, "-", "unresolved anchor")
+			continue
+		}
+		fr := &freshness{p: p, memo: map[ssa.Value]string{}, taint: &taintResult{Params: map[*ssa.Parameter]bool{}}}
+		bad := ""
+		for _, b := range g.Blocks {
+			if ret, ok := b.Instrs[len(b.Instrs)-1].(*ssa.Return); ok {
+				if why := fr.notFresh(ret.Results[0], map[ssa.Value]bool{}); why != "" {
+					bad = why
+				}
+			}
+		}
+		if bad == "" {
+			r.OK("L7", name, p.pos(g.Pos()), "fresh literal per call", "", true)
+		} else {
+			r.Bad("L7", name, p.pos(g.Pos()), "the table handed to callers is shared with the library's own lookups: "+bad)
+		}
+	}
 	ruleFoldUnique(p, r, t, "L4")
 	ruleK1(p, r) // L5b evaluates the lookups as exact membership tests; K1 is what makes them so
 	kw, kerr := scannerKeywords(p)
